@@ -35,6 +35,7 @@ declare -A PROP=(
  ["wrap stream operations report the call's cancellation"]="C13"
  ["a Collection subscriber skips the events of writes"]="C03"
  ["wrap guards a stream's trailer"]="C11"
+ ["trait model Pull adapters stop with their context"]="C10"
 )
 git -C /repo log --format='%h %s' | grep ' fix: ' | while read -r h subj; do
   prop=""
